@@ -44,6 +44,26 @@ bool prepare(TableFace &tf, const std::string &kind) {
         }
         tf.tables[tagof("Feat")] = ft;
     }
+    if (kind == "badfeat" || kind == "badfeat2") {      // Feat: a settings offset beyond the table / a settings array running past its end
+        std::vector<uint8_t> ft = tf.tables[tagof("Feat")];
+        if (ft.size() < 12) return false;
+        const bool v2 = be16(&ft[0]) >= 2; const unsigned n = be16(&ft[4]); const size_t rec = v2 ? 16 : 12;
+        const unsigned i = kind == "badfeat" ? 0 : (n > 1 ? n - 1 : 0);
+        uint8_t *r = &ft[12 + rec * i];
+        if (12 + rec * (i + 1) > ft.size()) return false;
+        if (kind == "badfeat") { uint8_t *o = r + (v2 ? 8 : 4); o[0] = 0x7F; o[1] = 0xFF; o[2] = 0xFF; o[3] = 0xF0; }
+        else { uint8_t *c = r + (v2 ? 4 : 2); c[0] = 0xFF; c[1] = 0xFF; }
+        tf.tables[tagof("Feat")] = ft;
+    }
+    if (kind == "badsill") {           // Sill: the last language's settings lie beyond the table
+        std::vector<uint8_t> sl = tf.tables[tagof("Sill")];
+        if (sl.size() < 20) return false;
+        const unsigned n = be16(&sl[4]);
+        if (!n || 12 + 8 * size_t(n) > sl.size()) return false;
+        uint8_t *e = &sl[12 + 8 * (n - 1)];
+        e[4] = 0; e[5] = 3; e[6] = 0xFF; e[7] = 0xF0;
+        tf.tables[tagof("Sill")] = sl;
+    }
     if (kind == "noname") tf.drop("name");
     else if (kind == "badlabel") {      // every Windows-platform name string ends in an unpaired lead surrogate
         std::vector<uint8_t> n = tf.tables[tagof("name")];
